@@ -177,8 +177,10 @@ BearerSmall == {NoBearer, [present |-> TRUE, valid |-> TRUE, issuerOwner |-> TRU
 SplitU == IF Sliced THEN {<<FALSE, TRUE>>, <<TRUE, FALSE>>, <<TRUE, TRUE>>} ELSE BOOLEAN \X BOOLEAN
 Variants == [op : OpsU \ {"put"}, tomb : {FALSE}, ttl1 : {FALSE}, split : {FALSE}, srvIn : {FALSE}]
             \cup (IF "put" \in OpsU
-                    THEN {[op |-> "put", tomb |-> tb, ttl1 |-> t1, split |-> ss[1], srvIn |-> ss[2]] :
-                             tb \in BOOLEAN, t1 \in BOOLEAN, ss \in SplitU}
+                    THEN {v \in {[op |-> "put", tomb |-> tb, ttl1 |-> t1, split |-> ss[1], srvIn |-> ss[2]] :
+                                     tb \in BOOLEAN, t1 \in BOOLEAN, ss \in SplitU} :
+                             \* quick: tombstone variants without the (split, node in container) combination
+                             ~(Sliced /\ v.tomb /\ v.split /\ v.srvIn)}
                     ELSE {})
 
 Seed(v, io, ir, ic) ==
@@ -207,7 +209,7 @@ Plain(s) == /\ ~s.tomb /\ ~s.ttl1 /\ (s.op = "put" => ~s.split /\ s.srvIn)
             /\ Cardinality({f \in {"o", "i", "c"} : (f = "o" /\ s.isOwner) \/ (f = "i" /\ s.inIR) \/ (f = "c" /\ s.inCnr)}) <= 1
 Expand(s) ==
   IF Sliced
-    THEN Complete(s, BearerSmall, CtabSmall, BOOLEAN, BOOLEAN)
+    THEN Complete(s, BearerSmall, CtabSmall, IF s.op = "put" THEN BOOLEAN ELSE {FALSE}, IF s.op = "put" THEN BOOLEAN ELSE {FALSE})
          \cup (IF Plain(s) THEN Complete(s, BearerU, CtabU, {FALSE}, {TRUE}) ELSE {})
     ELSE Complete(s, BearerU, CtabU, BOOLEAN, BOOLEAN)
 
